@@ -90,6 +90,20 @@ def walk_no_nested(node: ast.AST) -> Iterator[ast.AST]:
         todo.extend(reversed(list(ast.iter_child_nodes(n))))
 
 
+def canon(text: str) -> str:
+    """Source text of an expression/statement spec in the loader's canonical form
+    (operand order of ==, !=, is, is not): use it for every literal a rule compares with src(...)."""
+    from .core import _cmp_rank
+
+    tree = ast.parse(text)
+    for node in ast.walk(tree):
+        if isinstance(node, ast.Compare) and len(node.ops) == 1 and isinstance(node.ops[0], (ast.Eq, ast.NotEq, ast.Is, ast.IsNot)):
+            l, r = node.left, node.comparators[0]
+            if _cmp_rank(l) > _cmp_rank(r):
+                node.left, node.comparators[0] = r, l
+    return ast.unparse(tree)
+
+
 def calls_in(node: ast.AST, nested: bool = False) -> List[ast.Call]:
     it = ast.walk(node) if nested else walk_no_nested(node)
     return [n for n in it if isinstance(n, ast.Call)]
@@ -466,6 +480,14 @@ class Linear:
         if isinstance(test, ast.Compare) and len(test.ops) == 1:
             op = test.ops[0]
             l, r = test.left, test.comparators[0]
+            if isinstance(op, (ast.Eq, ast.NotEq, ast.Is, ast.IsNot)):
+                # same canonical operand order as the loader (core._normalise), so that
+                # conditions written in rule specs meet the code's atoms whatever way round
+                from .core import _cmp_rank
+
+                if _cmp_rank(l) > _cmp_rank(r):
+                    l, r = r, l
+                    test = ast.Compare(l, [op], [r])
             if isinstance(op, ast.IsNot):
                 return f_not(self._atom(ast.Compare(l, [ast.Is()], [r]), versions))
             if isinstance(op, ast.NotEq):
